@@ -23,6 +23,7 @@ def perturb(src, seed, mode):
             if mode == 'glue' and r < 0.3: new[-1] = t + rnd.choice(COMMENTS) + '\x00'      # the comment replaces the separating blank
             elif mode == 'block' and r < 0.25: new.append(rnd.choice(COMMENTS))
             elif mode == 'splice' and r < 0.2: new[-1] = t + ' \\\n'
+            elif mode == 'splice-indent' and r < 0.25: new[-1] = t + '\\\n \t\x00'        # the continuation line's indentation is the only separator
             elif mode == 'tabs' and r < 0.4: new[-1] = t + '\t'
             elif mode == 'mixed':
                 if r < 0.12: new.append(rnd.choice(COMMENTS))
@@ -30,6 +31,8 @@ def perturb(src, seed, mode):
                 elif r < 0.3: new[-1] = t + '\t\t'
         l2 = ' '.join(new).replace('\x00 ', '')
         r = rnd.random()
+        if mode == 'lineend' and l2.strip() and not l2.rstrip().endswith('\\'):
+            l2 += rnd.choice(['/* a *//* b */', '/* a */// b', '/**/', '// x', ' /* a */ /* b */ // c', '/* a */'])        # comments glued to the last token and to each other
         if mode in ('line', 'mixed') and r < 0.35 and not l2.rstrip().endswith('\\'): l2 += ' ' + rnd.choice(LINE_COMMENTS)
         out.append(l2)
         if mode in ('blank', 'mixed') and rnd.random() < 0.3: out.append('')
@@ -52,7 +55,7 @@ def run(tier):
     def variants(p):
         seed = int(hashlib.md5(p.pid.encode()).hexdigest()[:6], 16) + rep.seed
         v = [('plain', [], None), ('insert_code', ['--insert-code'], None), ('Wall', ['-W', 'all'], None), ('insert_code+Wall', ['--insert-code', '-W', 'all'], None)]
-        for mode in ('block', 'glue', 'line', 'blank', 'splice', 'tabs', 'crlf', 'oneline', 'mixed'):
+        for mode in ('block', 'glue', 'line', 'lineend', 'blank', 'splice', 'splice-indent', 'tabs', 'crlf', 'oneline', 'mixed'):
             v.append(('layout:' + mode, [], (lambda p, mode=mode: perturb(p.c(), seed, mode))))
         v.append(('layout:mixed+insert_code', ['--insert-code'], (lambda p: perturb(p.c(), seed + 1, 'mixed'))))
         v.append(('layout:oneline+insert_code', ['--insert-code'], (lambda p: perturb(p.c(), seed, 'oneline'))))
